@@ -2,8 +2,8 @@
    Property theorems only (models: model/C07*.v, proofs: proofs/C07_*.v). *)
 From Coq Require Import ZArith QArith List Bool String Permutation.
 Require Import WV.model.C07Tok WV.model.C07Decl WV.model.C07Expand WV.model.C07Full WV.model.C07Var WV.model.C07Units
-  WV.model.C07Pending.
-Require Import WV.proofs.C07_decl WV.proofs.C07_expand WV.proofs.C07_full WV.proofs.C07_units WV.proofs.C07_var WV.proofs.C07_pending.
+  WV.model.C07Pending WV.model.C07Ranges.
+Require Import WV.proofs.C07_decl WV.proofs.C07_expand WV.proofs.C07_full WV.proofs.C07_units WV.proofs.C07_var WV.proofs.C07_pending WV.proofs.C07_ranges.
 Require Import WV.gen.GenCssUtils WV.proofs.C07_gen_units.
 Import ListNotations.
 Open Scope string_scope.
@@ -275,33 +275,49 @@ Print Assumptions C07_source_equal_lengths_interchangeable.
    Subst env key fallback var_name: textual substitution (model/C07Var.v); the implementation stores --a-b under
    `__a_b` (impl_key) and takes as fallback the arguments after the name without their commas (impl_fallback). *)
 Theorem C07_var_is_substitution env fuel tokens r :
-  solved_tokens env fuel tokens = Some (RToks r) ->
-  SubstL env impl_key impl_fallback impl_var_name tokens r.
+  solved_tokens env fuel tokens = Some r ->
+  SubstL env impl_key impl_fallback impl_var_name [] tokens r.
 Proof. exact (solved_tokens_sound env fuel tokens r). Qed.
 Print Assumptions C07_var_is_substitution.
 
-(* acyclic definitions (ranked) and no var()-free function next to a var() (regular): some fuel is enough,
-   and then any more *)
+(* every reference is substituted by itself: the tokens of a declaration are resolved one by one, what one
+   reference gives does not depend on the references around it - their names, their fallbacks (a memo per style
+   keyed by the property's name alone would break this) *)
+Theorem C07_var_references_independent env fuel before t after r :
+  solved_tokens env fuel (before ++ t :: after) = Some r ->
+  exists rb rt ra, r = (rb ++ rt ++ ra)%list /\
+                   solved_tokens env fuel before = Some rb /\ solved_tokens env fuel [t] = Some rt /\
+                   solved_tokens env fuel after = Some ra.
+Proof. exact (references_are_independent env fuel before t after r). Qed.
+Print Assumptions C07_var_references_independent.
+
+(* a reference to a defined property does not look at its fallback *)
+Theorem C07_var_fallback_unused_when_defined env fuel ps n ln v lv fb1 fb2 :
+  env (underscore v) <> [] ->
+  has_var (TFunc n ln (TIdent v lv :: TLit "," :: fb1)) = true ->
+  has_var (TFunc n ln (TIdent v lv :: TLit "," :: fb2)) = true -> String.eqb ln "var" = true ->
+  resolve_var env fuel ps (TFunc n ln (TIdent v lv :: TLit "," :: fb1)) =
+  resolve_var env fuel ps (TFunc n ln (TIdent v lv :: TLit "," :: fb2)).
+Proof. exact (fallback_unused_when_defined env fuel ps n ln v lv fb1 fb2). Qed.
+Print Assumptions C07_var_fallback_unused_when_defined.
+
+(* acyclic definitions (ranked): some fuel is enough, and then any more *)
 Theorem C07_var_fuel_sufficient env rk n tokens :
-  ranked env rk -> Forall (fun t => refs_lt rk n t = true /\ regular t = true) tokens ->
+  ranked env rk -> Forall (fun t => refs_lt rk n t = true) tokens ->
   exists F, forall f, (F <= f)%nat ->
-    exists r, solved_tokens env f tokens = Some (RToks r) /\ SubstL env impl_key impl_fallback impl_var_name tokens r.
+    exists r, solved_tokens env f tokens = Some r /\ SubstL env impl_key impl_fallback impl_var_name [] tokens r.
 Proof. exact (fun H => solved_tokens_fuel_sufficient env rk H n tokens). Qed.
 Print Assumptions C07_var_fuel_sufficient.
 
 (* where the implementation is NOT substitution (each replayed on the implementation by the stream var-direct
-   and the render stream): cycles never end; a var()-free function next to a var() raises; the commas of a
-   fallback are lost; --a-b and --a_b are one property *)
+   and the render streams): a reference back into a cycle is erased and the fallback never used (CSS: the whole
+   cycle is invalid); the commas of a fallback are lost; --a-b and --a_b are one property *)
 Theorem C07_var_refuted :
-  (let env := fun k => if String.eqb k "__x" then [VAR "--x" []] else [] in
-   forall fuel, resolve_var env fuel (VAR "--x" []) = None) /\
-  (let env := fun k => if String.eqb k "__a" then [TAtom 5] else [] in
-   let t := TFunc "calc" "calc" [VAR "--a" []; TFunc "max" "max" [TAtom 1]] in
-   (forall fuel, resolve_var env (S (S (S fuel))) t = Some RTypeError) /\
-   Subst env impl_key impl_fallback impl_var_name t [TFunc "calc" "calc" [TAtom 5; TFunc "max" "max" [TAtom 1]]]) /\
+  (let env := fun k => if String.eqb k "__x" then [TAtom 1; VAR "--x" []] else [] in
+   solved_tokens env 5 [VAR "--x" [TLit ","; TAtom 7]] = Some [TAtom 1]) /\
   (let env := fun _ : string => @nil tok in
    let args := [TIdent "--u" "--u"; TLit ","; TWs; TIdent "a" "a"; TLit ","; TWs; TIdent "b" "b"] in
-   resolve_var env 2 (TFunc "var" "var" args) = Some (RToks [TIdent "a" "a"; TIdent "b" "b"]) /\
+   resolve_var env 2 [] (TFunc "var" "var" args) = Some (RToks [TIdent "a" "a"; TIdent "b" "b"]) /\
    css_fallback args = [TIdent "a" "a"; TLit ","; TIdent "b" "b"]) /\
   (impl_key "--a-b" = impl_key "--a_b" /\ "--a-b" <> "--a_b").
 Proof. exact var_refuted. Qed.
@@ -372,7 +388,25 @@ Print Assumptions C07_pending_shorthand_all_or_nothing_refuted.
    declaration, it is erased from it *)
 Theorem C07_undefined_var_is_erased :
   let env := fun _ : string => @nil tok in
-  solved_tokens env 2 [VAR "--p" []; TWs; TAtom 2] = Some (RToks [TWs; TAtom 2]) /\
-  solved_tokens env 2 [VAR "--p" []] = Some (RToks []).
+  solved_tokens env 2 [VAR "--p" []; TWs; TAtom 2] = Some [TWs; TAtom 2] /\
+  solved_tokens env 2 [VAR "--p" []] = Some [].
 Proof. exact undefined_var_is_erased. Qed.
 Print Assumptions C07_undefined_var_is_erased.
+
+(* ---- 7. ranges of the one-number / one-length properties (model/C07Ranges.v): css_accepts is written from the
+   value definitions of the specifications, impl_accepts models the validators' tests; a token is
+   (kind 0 number | 1 length | 2 percentage, value, written as an integer?) ---- *)
+(* what a validator accepts its grammar allows - except negative flex factors (finding F133) *)
+Theorem C07_validators_within_grammar p k v i :
+  impl_accepts p k v i = true ->
+  css_accepts p k v i = true \/ (str_in p NUM_GE_0 = true /\ nonneg v = false).
+Proof. exact (validators_within_grammar p k v i). Qed.
+Print Assumptions C07_validators_within_grammar.
+
+(* orphans, widows, column-count, bookmark-level, max-lines: <integer [1,inf]> and nothing else *)
+Theorem C07_integer_bounds p v i :
+  str_in p INT_GE_1 = true ->
+  (css_accepts p 0 v i = true <-> i = true /\ (1 <= v)%Q) /\
+  css_accepts p 1 v i = false /\ css_accepts p 2 v i = false.
+Proof. exact (integer_bounds p v i). Qed.
+Print Assumptions C07_integer_bounds.
